@@ -372,8 +372,12 @@ void Image::load(FILE* f) {
           new_data[target_y_offset + x_offset + 1] = row_data[src_x_offset + 1];
           new_data[target_y_offset + x_offset + 0] = row_data[src_x_offset + 2];
         }
-        if (row_padding_bytes) {
-          fseek(f, row_padding_bytes, SEEK_CUR);
+        if (row_padding_bytes && (fseek(f, row_padding_bytes, SEEK_CUR) != 0)) {
+          // The stream can't seek (e.g. a pipe); skip the padding by reading
+          // it instead. As with seeking, it's not an error if the padding
+          // after the last row is missing.
+          for (size_t z = 0; (z < row_padding_bytes) && (fgetc(f) != EOF); z++) {
+          }
         }
       }
 
